@@ -265,6 +265,32 @@ impl BlockingManager {
     }
 }
 
+#[cfg(feature = "verif")]
+impl BlockingManager {
+    /// Read-only dump of the registries: (db, key, waiting connection ids in
+    /// queue order), plus keys of the quick-lookup set that have no queue.
+    pub fn verif_dump(&self) -> Vec<(usize, Vec<u8>, Vec<u64>)> {
+        let mut out = Vec::new();
+        for (db, registry) in self.registries.iter().enumerate() {
+            let reg = registry.read().unwrap();
+            for (key, clients) in reg.blocked_on_key.iter() {
+                out.push((db, key.clone(), clients.iter().map(|c| c.conn_id).collect()));
+            }
+            for key in reg.blocked_keys.iter() {
+                if !reg.blocked_on_key.contains_key(key) {
+                    out.push((db, key.clone(), Vec::new()));
+                }
+            }
+        }
+        out
+    }
+    
+    /// Number of wake-up requests queued but not yet processed.
+    pub fn verif_pending_wakeups(&self) -> usize {
+        self.wake_queue.len()
+    }
+}
+
 impl Default for BlockingRegistry {
     fn default() -> Self {
         Self::new()
